@@ -164,7 +164,7 @@ PROPS["C10"] = dict(
 )
 
 PROPS["C04"] = dict(
-    bounds="FixedTransaction: one step of every public mutator from an arbitrary state satisfying the representation invariant; constructor decoders over token streams",
+    bounds="FixedTransaction: one step of every public mutator from an arbitrary state satisfying the representation invariant; constructor decoders over token streams; Plutus datum: item at stream position 0..2 spanning 1..3 tokens, with and without trailing input",
     assumptions=["TransactionBody::from_bytes, blake2b256 and to_vec are uninterpreted functions; the Plutus datum byte-level harness (kani/src/c04.rs) exhausts CBMC memory at 24 GB for 5 input bytes and is not part of the claim"],
     e1=[],
     e2=["c04"],
